@@ -85,6 +85,7 @@ struct Sched {
   std::vector<Thr*> thr;
   Thr* cur = nullptr;
   uint64_t vtime = 1000000000ull;
+  bool spinYield = false;
   uint64_t arrivals = 0;
   RunInfo info;
   std::vector<Event> trace;
@@ -239,6 +240,17 @@ Thr* pick(Thr* me, bool yielding) {
       }
   std::vector<Thr*> run;
   for (Thr* t : G.thr) if (t->state == T_RUNNABLE) run.push_back(t);
+  if (G.opt.spinJump && G.spinYield && run.size() == 1 && run[0] == me) {
+    // the only runnable thread is spinning on loads: only the passage of time can change what it reads
+    Thr* best = nullptr;
+    for (Thr* t : G.thr) if (t->timed && t->state != T_FINISHED && t->state != T_RUNNABLE && (!best || t->deadline < best->deadline)) best = t;
+    if (best && best->deadline > G.vtime) {
+      G.vtime = best->deadline;
+      expireTimers();
+      run.clear();
+      for (Thr* t : G.thr) if (t->state == T_RUNNABLE) run.push_back(t);
+    }
+  }
   if (run.empty()) {
     // everybody blocked: advance virtual time to the earliest deadline
     Thr* best = nullptr;
@@ -872,7 +884,7 @@ static inline void spinHeuristic(bool isLoad) {
   if (!managed()) return;
   self->lastPlainKind = -1;
   if (isLoad) {
-    if (++self->loadStreak >= 24) { self->loadStreak = 0; schedPoint(true); return; }
+    if (++self->loadStreak >= 24) { self->loadStreak = 0; G.spinYield = true; schedPoint(true); G.spinYield = false; return; }
   } else {
     self->loadStreak = 0;
   }
